@@ -49,7 +49,7 @@ SELECT_BUILDERS = {
 }
 WRAP_BUILDERS = ["and_", "or_", "not_", "as_", "subquery", "isin", "between", "like", "eq", "neq", "is_", "desc", "asc", "with_", "union", "limit_q"]
 NM_FUNCS = ["sql_all", "sql_all", "update_fn", "insert_fn", "column_fn", "placeholders_expr", "sql", "sql", "sql", "optimize", "qualify_copy", "annotate_copy", "diff", "diff", "lineage", "expand", "replace_tables", "replace_placeholders",
-            "maybe_parse_copy", "binop", "dump", "alias_", "subquery_fn", "not_fn", "and_fn", "cast_fn", "find_tables", "to_s", "union_fn", "copy_eq"]
+            "maybe_parse_copy", "binop", "dump", "alias_", "subquery_fn", "not_fn", "and_fn", "cast_fn", "find_tables", "to_s", "union_fn", "copy_eq", "plan"]
 BAD_SQL = "SELECT (((("
 
 
@@ -237,7 +237,7 @@ def _gen_op(rng, g, cfg, fault_now):
         return {"k": "pop", **_tn(rng)}
     if g == "transform":
         return {"k": "transform", "t": rng.randrange(64), "n": 0 if rng.random() < 0.7 else rng.randrange(4096), "copy": rng.random() < 0.4, "mod": rng.randrange(1, 6),
-                "abort": rng.randrange(1, 30) if (fault_now and "abort_callback" in faults) else None}
+                "abort": rng.randrange(1, 30) if (fault_now and "abort_callback" in faults) else None, "sib": rng.choice([0, 0, 1, 2, 3])}
     if g == "replace_children":
         return {"k": "replace_children", **_tn(rng), "mod": rng.randrange(1, 4), "abort": rng.randrange(1, 6) if (fault_now and "abort_callback" in faults) else None}
     if g == "replace_tree":
@@ -702,6 +702,10 @@ def _apply(world, op, st):
                 return node.this
             if isinstance(node, exp.Ordered) and c == 3 % mod and node.parent is not None:
                 return None
+            if op.get("sib") and node.index is not None and isinstance(node, (exp.Column, exp.Alias, exp.Literal)) and cnt[0] % 3 == 0:
+                # a list in place of a list element: insert a sibling before / after the visited node, or split it in two
+                extra = exp.column("sib%d" % cnt[0])
+                return [[node, extra], [extra, node], [extra, exp.column("sib%db" % cnt[0])]][op["sib"] - 1]
             return node
 
         if op["copy"]:
@@ -1018,6 +1022,16 @@ def _apply_nm(world, op, st, res, target):
                 from sqlglot.optimizer import optimize
 
                 r = optimize(t, schema=_schema(), dialect=d if d in (None, "duckdb", "snowflake", "bigquery", "postgres", "spark", "mysql", "tsql") else None, **_db_args(op, n2, t2, res, st))
+            elif f == "plan":
+                # the planner and the executor take an Expression too and document no mutation; they are at the edge of the
+                # property's list ("optimizing it"), the tree is whatever the history made of it
+                from sqlglot.planner import Plan
+
+                if isinstance(t, exp.Query):
+                    Plan(t)
+                    res["outcome"] = "ok:planned"
+                else:
+                    res["outcome"] = "skip"
             elif f == "qualify_copy":
                 from sqlglot.optimizer.qualify import qualify
 
